@@ -8,8 +8,11 @@ import (
 	"math/rand/v2"
 	"net/url"
 	"os"
+	"runtime"
 	"sort"
+	"strings"
 	"sync"
+	"syscall"
 	"testing"
 
 	"verif/fw"
@@ -63,6 +66,25 @@ func TestMain(m *testing.M) {
 	// used as CASYNC_SSH_PATH shim: serve the sftp subsystem over stdio on the real file system
 	if os.Getenv("VERIF_SSH_SHIM") == "1" {
 		sshShimMain()
+	}
+	// used to run the real binary as root without CAP_FSETID (what a hardened container gives it): drop the
+	// capability from the bounding set of this thread and exec the binary given in the variable
+	if bin := os.Getenv("VERIF_DROPCAP_SHIM"); bin != "" {
+		runtime.LockOSThread()
+		const prCapbsetDrop, capFsetid = 24, 4
+		if _, _, e := syscall.RawSyscall(syscall.SYS_PRCTL, prCapbsetDrop, capFsetid, 0); e != 0 {
+			fmt.Fprintln(os.Stderr, "dropcap shim: prctl:", e)
+			os.Exit(3)
+		}
+		var env []string
+		for _, kv := range os.Environ() {
+			if !strings.HasPrefix(kv, "VERIF_DROPCAP_SHIM=") {
+				env = append(env, kv)
+			}
+		}
+		err := syscall.Exec(bin, append([]string{bin}, os.Args[1:]...), env)
+		fmt.Fprintln(os.Stderr, "dropcap shim: exec:", err)
+		os.Exit(3)
 	}
 	if os.Getenv("VERIF_SFTP_SHIM") == "1" {
 		srv, err := sftp.NewServer(stdio{})
